@@ -8,7 +8,7 @@ use crate::krpc::{self, hex, Val};
 use crate::log::{ApiEv, Ev};
 use crate::stubs::{Answer, NodeRef, NodesMode, StubCfg};
 use serde_json::json;
-use std::collections::BTreeSet;
+use std::collections::{BTreeMap, BTreeSet};
 use std::net::SocketAddr;
 
 pub struct C12;
@@ -213,6 +213,33 @@ impl Property for C12 {
                 nodes: named,
             });
         }
+        // revenants: contacts named exactly once (class-6 addresses), which never answer and are
+        // therefore dropped as bad within a minute; two minutes or more later they send queries from
+        // that very address and id. A query never (re-)admits its sender.
+        if horizon >= 300_000 && n > n_routers && rng.chance(1, 2) {
+            for j in 0..rng.range(1, 2) as u32 {
+                let rid = rng.id20();
+                let raddr = addr(v6, 6, j + 1, 6881);
+                let host = rng.range(n_routers as u64, n as u64 - 1) as usize;
+                let mut l = match &sc.world.stubs[host].nodes {
+                    NodesMode::ClosestPlus(l) => l.clone(),
+                    _ => vec![],
+                };
+                l.push(NodeRef { id: rid, addr: raddr });
+                // (a stub that names a revenant names its extras once only)
+                sc.world.stubs[host].nodes = NodesMode::ClosestPlusOnce(l);
+                for _ in 0..rng.range(1, 4) {
+                    let t = t_start + rng.range(120_000, horizon - 10_000);
+                    let bytes = match rng.below(3) {
+                        0 => ping(&rng.bytes_in(1, 8), &rid),
+                        1 => find_node(&rng.bytes_in(1, 8), &rid, &own, None),
+                        _ => get_peers(&rng.bytes_in(1, 8), &rid, &rng.id20(), None),
+                    };
+                    sc.at(t, Op::Raw { from: raddr, to: node, bytes });
+                }
+            }
+            sc.params.insert("revenants".into(), 1);
+        }
         let period = *rng.pick(&[700u64, 1_900, 4_300]);
         sc.at(t_start, Op::SampleEvery { node: 0, period_ms: period, count: ((horizon + 10_000) / period) as u32, table: true });
         sc.end_ms = t_start + horizon + 30_000;
@@ -257,6 +284,55 @@ impl Property for C12 {
                 v.violate("C12", clause, t, d);
             }
         };
+        // revenants (class 6): first query time per address, and whether the sample before it listed them
+        let mut rev_first_q: BTreeMap<SocketAddr, u64> = BTreeMap::new();
+        for st in &sc.steps {
+            if let (crate::exec::When::At(t), Op::Raw { from, .. }) = (&st.when, &st.op) {
+                if addr_class(from) == 6 {
+                    let e = rev_first_q.entry(*from).or_insert(*t);
+                    *e = (*e).min(*t);
+                }
+            }
+        }
+        let mut rev_live_before: BTreeSet<SocketAddr> = BTreeSet::new();
+        // when the node was (last) told about each revenant: a naming re-admits it as questionable
+        let mut rev_named: BTreeMap<SocketAddr, u64> = BTreeMap::new();
+        for e in &run.log {
+            match e {
+                Ev::Recv { t, dst, bytes, .. } if *dst == real.addr && !rev_first_q.is_empty() => {
+                    if let Some(l) = krpc::Msg::parse(bytes).and_then(|m| m.resp().and_then(|r| r.get(if v6 { "nodes6" } else { "nodes" }).and_then(|x| x.as_bytes()).and_then(|b| krpc::parse_compact_nodes(b, v6)))) {
+                        for (_, a) in l {
+                            if rev_first_q.contains_key(&a) {
+                                rev_named.insert(a, *t);
+                            }
+                        }
+                    }
+                }
+                Ev::Api { t, ev: ApiEv::Sample { contacts: Some((g, q)), .. }, .. } => {
+                    for (a, tq) in &rev_first_q {
+                        // judged only if the one naming lies at least 100 s before the query (time enough
+                        // for two unanswered pings in any regime) and nobody named it again since
+                        match rev_named.get(a) {
+                            Some(tn) if *tn + 100_000 <= *tq => {}
+                            _ => continue,
+                        }
+                        let listed = g.contains(a) || q.contains(a);
+                        if *t + 60_000 >= *tq && *t <= *tq && listed {
+                            // still (or again) a live contact shortly before it queries: a query from a
+                            // known contact legitimately refreshes it; not judged
+                            rev_live_before.insert(*a);
+                        }
+                        if *t > *tq + 200 && listed && !rev_live_before.contains(a) {
+                            fire(&mut v, "query_sender_admitted", *t, format!("{a} had been dropped from the contacts (named once, never answered); after it sent a query at {tq} ms it is listed again at {t} ms"));
+                        }
+                    }
+                }
+                _ => {}
+            }
+        }
+        if rev_first_q.iter().any(|(a, tq)| !rev_live_before.contains(a) && rev_named.get(a).map(|tn| *tn + 100_000 <= *tq).unwrap_or(false)) {
+            v.hit("dropped_contact_sends_queries");
+        }
         for e in &run.log {
             match e {
                 Ev::Api { t, ev: ApiEv::Sample { contacts, table, .. }, .. } => {
@@ -335,12 +411,12 @@ impl Property for C12 {
         v
     }
     fn rule(&self) -> &'static str {
-        "one real node (serving or read-only) with 2..20 stubs (0..2 of them configured as routers) whose accepted answers also name the node's own id, router addresses, duplicates and up to 40 unreachable addresses; 0..3 searches; an adversary sends 5..60 datagrams from unknown addresses while the node bootstraps / idles / searches: the four query kinds (some claiming the id of a node the victim only knows by hearsay), unsolicited responses sent from the very address and id of such a hearsay-only node, responses with ids of length 0..32 != 8 (random, or derived from an id the node really used by appending or cutting bytes), and 8-byte ids whose action prefix is >= 2^32 (never handed out), some before any request was sent, each naming up to 8 further adversary identities and carrying unique values; message faults (drop, delay, duplicate, reorder, send errors, stalls) at swarm-drawn rates, plus a single-fault sweep; table dump and load_contacts sampled every 0.7..4.3 s. non-trivial = unsolicited datagrams were sent and the table held at least one node; distinct = distinct order digests"
+        "one real node (serving or read-only) with 2..20 stubs (0..2 of them configured as routers) whose accepted answers also name the node's own id, router addresses, duplicates and up to 40 unreachable addresses; 0..3 searches; contacts named exactly once that never answer (dropped as bad within a minute) send queries from their own address and id 2..5 minutes later; an adversary sends 5..60 datagrams from unknown addresses while the node bootstraps / idles / searches: the four query kinds (some claiming the id of a node the victim only knows by hearsay), unsolicited responses sent from the very address and id of such a hearsay-only node, responses with ids of length 0..32 != 8 (random, or derived from an id the node really used by appending or cutting bytes), and 8-byte ids whose action prefix is >= 2^32 (never handed out), some before any request was sent, each naming up to 8 further adversary identities and carrying unique values; message faults (drop, delay, duplicate, reorder, send errors, stalls) at swarm-drawn rates, plus a single-fault sweep; table dump and load_contacts sampled every 0.7..4.3 s. non-trivial = unsolicited datagrams were sent and the table held at least one node; distinct = distinct order digests"
     }
     fn assumptions(&self) -> Vec<&'static str> {
         vec!["in-flight corruption is off in this family: adversary identities are recognised by value in table dumps", "forged responses that reuse a low, guessable action prefix or a timed-out id of a live search are deliberately not asserted (the statement does not cover them)"]
     }
     fn required_reach(&self) -> Vec<&'static str> {
-        vec!["unsolicited_datagrams", "hearsay_admitted_as_questionable", "routers_configured", "more_than_8_contacts", "read_only_run", "search_ran", "wrong_length_id_derived_from_real_one"]
+        vec!["unsolicited_datagrams", "hearsay_admitted_as_questionable", "routers_configured", "more_than_8_contacts", "read_only_run", "search_ran", "wrong_length_id_derived_from_real_one", "dropped_contact_sends_queries"]
     }
 }
